@@ -13,6 +13,14 @@ MAX_REPORT = 25
 
 def _load(prop):
     core.setup_repo_path()
+    # imported once in the parent (never CALLED here): every chunk runs in a freshly forked child
+    for m in ("numpy", "pydrobert.speech.config", "pydrobert.speech.scales", "pydrobert.speech.filters",
+              "pydrobert.speech.compute", "pydrobert.speech.pre", "pydrobert.speech.post",
+              "pydrobert.speech.util"):
+        try:
+            importlib.import_module(m)
+        except Exception:
+            pass  # a tree that does not import is reported by the sub-checks themselves
     return importlib.import_module("mc.props.%s" % prop.lower())
 
 
